@@ -197,6 +197,9 @@ class AddTrunc(Op):
                     yield (m, base, (None, None, None, None, None, x, None, None, None))
                     yield (m, base, (None, None, None, None, None, None, x, None, None))
 
+    sibling = T.tp_sibling(1, ymin=-8000, ymax=8000)
+    sibling_rate = 0.3
+
     def line(self, a):
         return "addtrunc %s %s %s" % (a[0], T.tp_str(a[1]), trunc_str(a[2]))
 
